@@ -286,6 +286,28 @@ def all_def_exprs(fn, l, depth=64):
     return out
 
 
+def adt_field_uses(fn, adt, blocks=None):
+    """[(bb, field name)] for every place projection through a field of struct/enum `adt` in the given blocks of fn (default: all
+    non-cleanup blocks), statements and terminators alike."""
+    def projs(x):
+        if isinstance(x, list):
+            for v in x:
+                yield from projs(v)
+        elif isinstance(x, dict):
+            if x.get("adt") == adt and "name" in x:
+                yield x["name"]
+            for v in x.values():
+                if isinstance(v, (list, dict)):
+                    yield from projs(v)
+    out = []
+    for bb, b in enumerate(fn.blocks):
+        if b["cleanup"] or (blocks is not None and bb not in blocks):
+            continue
+        for nm in projs([b["stmts"], b["term"]]):
+            out.append((bb, nm))
+    return out
+
+
 def alternatives(fn, e, limit=16, depth=3):
     """The expressions e can stand for when its opaque ("local", l, _) leaves are replaced by each of their whole-local definitions
     (a value assigned on two branches has two alternatives).  Correlation between leaves is deliberately forgotten, so use it only for
